@@ -26,7 +26,9 @@ pub fn run_check(replay: Option<Value>) -> i32 {
     let thorough = is_thorough();
     let probs = problems();
     let tols: Vec<f64> = if thorough { vec![1e-2, 1e-3, 1e-4, 1e-5, 1e-6, 1e-7, 1e-8, 1e-9, 1e-10] } else { vec![1e-3, 1e-6, 1e-9, 1e-2] };
-    let fss = ["none", "small(span/200)", "large(span/2)"];
+    // (the last mode: the first attempt is already the step clipped to xend; at the tighter tolerances it is
+    // rejected with the last-step flag set and nothing accepted yet)
+    let fss = ["none", "small(span/200)", "large(span/2)", "covering(1.5 span)"];
     let mss = ["none", "small(span/23)"];
     let dims = vec![
         dim("method", &M6.iter().map(|m| mname(*m)).collect::<Vec<_>>()),
@@ -47,6 +49,9 @@ pub fn run_check(replay: Option<Value>) -> i32 {
         if idx[7] != 0 && (idx[6] != 1 || idx[4] != 0 || idx[5] != 0) {
             return None;
         }
+        if idx[4] == 3 && m == Method::RK4 {
+            return None; // no error test, nothing is rejected; one step over the whole span is not a meaningful run
+        }
         let span = &(span0 * span_factors()[idx[7]]);
         let tol = tols[idx[3]];
         let p = if backward { reflect(p0) } else { p0.clone() };
@@ -56,7 +61,8 @@ pub fn run_check(replay: Option<Value>) -> i32 {
         c.first_step = match idx[4] {
             0 => None,
             1 => Some(xend / 200.0),
-            _ => Some(xend / 2.0),
+            2 => Some(xend / 2.0),
+            _ => Some(xend * 1.5),
         };
         c.max_step = if idx[5] == 1 { Some(span / 23.0) } else { None };
         if m == Method::RK4 && c.first_step.is_none() {
